@@ -8,6 +8,7 @@ import ZstdVerif.Lemmas.FSERT
 import ZstdVerif.Lemmas.HufRT
 import ZstdVerif.Lemmas.ExecRT
 import ZstdVerif.Lemmas.LitRT
+import ZstdVerif.Lemmas.SeqRT
 namespace ZstdVerif.Props.C01
 open ZstdVerif
 
@@ -265,6 +266,69 @@ theorem literals_roundtrip_compressed (ws : List Nat) (last log : Nat) (ok : Wei
               streams := if single then 1 else 4 } :=
   LitRT.literals_roundtrip_compressed ws last log ok hlast hlog hr1 hws single wh streams syms hwh hstreams hsyms src start srcSize ent bsm dstCap
     hsec hsingle hc hn hbsm hcap hsz
+
+/-! ### sequences section, at the level of bytes: what ZSTD_encodeSequences writes, `Block.decodeSeqs` reads back -/
+
+section
+open Gen FSE SeqEnc Rep SeqRT
+variable {ctLL ctOF ctML : CTable} {llT ofT mlT : Array SeqCell} {okLL okOF okML : Nat → Prop}
+
+/-- **seq_section_roundtrip**: for ANY three (encoding table, decoding table) pairs that invert each other (`SeqRT.Inverts`: established for
+FSE-described tables by `inverts_build`, for the predefined tables by `inverts_default`, for RLE tables by `inverts_rle`; a repeated table is
+the previous block's pair) and every non-empty sequence list within the format's ranges, the BYTES written by the model of
+ZSTD_encodeSequences (three interleaved FSE states + extra bits through the forward bit writer) are read back by the decoder model's
+`Block.decodeSeqs` - initialised exactly as `Block.prepare` does - as the same (literal length, match length, offset value) triples in
+order; the stream ends exactly (`atEnd`, no over-read), and offsets / final repeat-offset history are those of `Rep.resolve`. -/
+theorem seq_section_roundtrip (hLL : Inverts ctLL llT LL_base LL_bits okLL) (hOF : Inverts ctOF ofT OF_base OF_bits okOF)
+    (hML : Inverts ctML mlT ML_base ML_bits okML) (seqs : List SeqIn) (hne : seqs ≠ [])
+    (hok : ∀ s ∈ seqs, okLL (codesOf s).ll ∧ okOF (codesOf s).of ∧ okML (codesOf s).ml) (hrng : ∀ s ∈ seqs, InRange s)
+    (rep0 : Array Nat) :
+    ∃ r0, BitR.init (encodeSeqBytes ctLL ctOF ctML seqs) 0 (encodeSeqBytes ctLL ctOF ctML seqs).size = .ok r0 ∧
+      let a := r0.read ctLL.tableLog
+      let b := a.2.read ctOF.tableLog
+      let c := b.2.read ctML.tableLog
+      let sd := Block.decodeSeqs llT ofT mlT seqs.length a.1 b.1 c.1 c.2 rep0
+      sd.seqs.toList.map (fun q => (q.ll, q.ml, q.ofValue)) = seqs.map (fun s => (s.litLength, s.mlBase + 3, s.offBase)) ∧
+      sd.r.atEnd = true ∧ sd.r.over = false ∧
+      sd.seqs.toList = (resolveAll (repOf rep0) (seqs.map triIn)).1 ∧
+      sd.rep = repArr (resolveAll (repOf rep0) (seqs.map triIn)).2 :=
+  SeqRT.seq_section_roundtrip hLL hOF hML seqs hne hok hrng rep0
+
+/-- **seq_offsets_roundtrip**: composed with the repeat-offset lock step - when the compressor stores `offBase = ZSTD_finalizeOffBase(raw
+offset)` along its own history (ZSTD_updateRep), the decoder recovers the RAW offsets, lengths and the same final history -/
+theorem seq_offsets_roundtrip (hLL : Inverts ctLL llT LL_base LL_bits okLL) (hOF : Inverts ctOF ofT OF_base OF_bits okOF)
+    (hML : Inverts ctML mlT ML_base ML_bits okML) (qs : List RawSeq) (hne : qs ≠ []) (rep0 : Array Nat)
+    (h0 : 1 ≤ rep0[0]!) (h1 : 1 ≤ rep0[1]!) (h2 : 1 ≤ rep0[2]!)
+    (hq : ∀ q ∈ qs, q.litLength < 2 ^ 17 ∧ q.mlBase < 2 ^ 17 ∧ 1 ≤ q.rawOffset ∧ q.rawOffset + 3 < 2 ^ 32)
+    (hok : ∀ s ∈ (storeAll (repOf rep0) qs).1, okLL (codesOf s).ll ∧ okOF (codesOf s).of ∧ okML (codesOf s).ml) :
+    ∃ r0, BitR.init (encodeSeqBytes ctLL ctOF ctML (storeAll (repOf rep0) qs).1) 0
+        (encodeSeqBytes ctLL ctOF ctML (storeAll (repOf rep0) qs).1).size = .ok r0 ∧
+      let a := r0.read ctLL.tableLog
+      let b := a.2.read ctOF.tableLog
+      let c := b.2.read ctML.tableLog
+      let sd := Block.decodeSeqs llT ofT mlT qs.length a.1 b.1 c.1 c.2 rep0
+      sd.seqs.toList.map (fun s => (s.ll, s.ml, s.offset)) = qs.map (fun q => (q.litLength, q.mlBase + 3, q.rawOffset)) ∧
+      sd.r.atEnd = true ∧ sd.r.over = false ∧ sd.rep = repArr (storeAll (repOf rep0) qs).2 :=
+  SeqRT.seq_offsets_roundtrip hLL hOF hML qs hne rep0 h0 h1 h2 hq hok
+end
+
+open Gen FSE SeqEnc Rep SeqRT in
+/-- **seq_section_roundtrip_predefined**: blocks that use the three predefined tables - no hypothesis about tables left -/
+theorem seq_section_roundtrip_predefined (seqs : List SeqIn) (hne : seqs ≠ [])
+    (hrng : ∀ s ∈ seqs, s.litLength < 2 ^ 17 ∧ s.mlBase < 2 ^ 17 ∧ 1 ≤ s.offBase ∧ s.offBase < 2 ^ 29) (rep0 : Array Nat) :
+    ∃ r0, BitR.init (encodeSeqBytes (buildCTable LL_defaultNorm.toArray LL_DEFAULTNORMLOG) (buildCTable OF_defaultNorm.toArray OF_DEFAULTNORMLOG)
+          (buildCTable ML_defaultNorm.toArray ML_DEFAULTNORMLOG) seqs) 0
+        (encodeSeqBytes (buildCTable LL_defaultNorm.toArray LL_DEFAULTNORMLOG) (buildCTable OF_defaultNorm.toArray OF_DEFAULTNORMLOG)
+          (buildCTable ML_defaultNorm.toArray ML_DEFAULTNORMLOG) seqs).size = .ok r0 ∧
+      let a := r0.read LL_DEFAULTNORMLOG
+      let b := a.2.read OF_DEFAULTNORMLOG
+      let c := b.2.read ML_DEFAULTNORMLOG
+      let sd := Block.decodeSeqs LL_defaultDTable.toArray OF_defaultDTable.toArray ML_defaultDTable.toArray seqs.length a.1 b.1 c.1 c.2 rep0
+      sd.seqs.toList.map (fun q => (q.ll, q.ml, q.ofValue)) = seqs.map (fun s => (s.litLength, s.mlBase + 3, s.offBase)) ∧
+      sd.r.atEnd = true ∧ sd.r.over = false ∧
+      sd.seqs.toList = (resolveAll (repOf rep0) (seqs.map triIn)).1 ∧
+      sd.rep = repArr (resolveAll (repOf rep0) (seqs.map triIn)).2 :=
+  SeqRT.seq_section_roundtrip_predefined seqs hne hrng rep0
 
 /-! ### sequence execution: any valid parse regenerates its source -/
 
